@@ -4,10 +4,11 @@ PROP = dict(
     level="exploration",
     stages=[
         # in-process differential check against OpenSSL libcrypto, zlib and published vectors
-        dict(name="c10_hash", src="harness/c10_hash.cc", link=["-lcrypto"], shards_quick=8, shards_thorough=16,
+        dict(name="c10_hash", src="harness/c10_hash.cc", deps=("harness/c10/ambient.hh",), link=["-lcrypto"], shards_quick=8, shards_thorough=16,
              timeout_quick=400, timeout_thorough=1500),
         # the same comparison against Python's hashlib / zlib through a serve shim (Hypothesis + enumeration)
-        dict(name="c10_py", kind="pydriver", driver="oracle/c10_hashes.py", shim="shim/c10_shim.cc", shards_quick=8, shards_thorough=16,
+        dict(name="c10_py", kind="pydriver", driver="oracle/c10_hashes.py", shim="shim/c10_shim.cc", deps=("harness/c10/ambient.hh", "shim/shim.hh"),
+             shards_quick=8, shards_thorough=16,
              timeout_quick=400, timeout_thorough=1500),
     ],
     rule=("Exhaustive: every length 0..600 (thorough 0..1100) x {zeros, 0xFF, i mod 251, xorshift keyed by the length}, handed to "
@@ -16,10 +17,28 @@ PROP = dict(
           "value, FNV-1a reference values). Random: rapidcheck inputs with lengths 0..300, k*64-10..k*64+2, and scaled up to 4 KiB / "
           "64 KiB / 1 MiB, arbitrary bytes up to 4 KiB and PRNG-expanded content above, random split points (a third at block "
           "boundaries) and seeds; Hypothesis binary() inputs up to 8 KiB and pattern inputs up to 1 MiB on the Python side. "
+          "Ambient state: a third of the random digest inputs of up to 4 KiB, every length 0..300 (Python: 0..130) and every published vector "
+          "are also hashed and rendered while the process locale is not the default one (global C++ locale with a digit-grouping numpunct facet, "
+          "grouping by 3 with ',' / by 1-2 with '.' and decimal comma plus errno = ERANGE; C locale switched to C.UTF-8 by setlocale plus errno = "
+          "EINVAL), the previous locale being restored after each case. "
+          "Digest-directed classes: the renderings take the digest VALUE as input, and classes of that value (all bytes printable ASCII / below "
+          "0x80 / from 0x80, hex text of decimal digits only, >= 5 leading zero nibbles, every 32-bit word starting with a zero nibble, >= 3 zero "
+          "bytes) cannot be reached by choosing lengths or contents; the fixed candidate messages \"c10/<i>\" (i < 2^25, thorough 2^28; SHA-1 and "
+          "SHA-256: a quarter of that) are hashed with OpenSSL only and those whose reference digest is in one of the classes go through the "
+          "complete digest oracle (quick: about 5000 messages, 3 with an all-printable MD5 digest); saved witnesses under corpus/c10/digest-value-* "
+          "are re-run by both stages. Subcheck render: MD5 / SHA-1 / SHA-256 objects whose public state words are set to a chosen digest value "
+          "(uniform, all bytes from one class - printable, letters+digits, control, high, decimal digits, boundary bytes -, one class with "
+          "one or two foreign bytes, one class per word; enumerated: all bytes equal x every ambient state, nine fills with one position set to "
+          "every byte value) must render it: bin() = the bytes, hex() = their hex digits. "
           "Non-trivial: digest inputs of length >= 56 (the padding spills into a second block or the input is multi-block); chain "
           "cases with a split strictly inside the input. Distinct by (length, pattern) / content hash / (length, split)."),
     assumptions=["inputs up to 1 MiB (2 MiB accepted by the replay decoder)",
                  "hex() is compared case-insensitively (phosg prints upper case)",
+                 "the results are functions of the message alone: the process locale (global C++ locale, setlocale) and errno are ambient state that must not show in bin()/hex()",
+                 "subcheck render assigns the public state words (a0..d0, h[]) of a hash object and requires bin()/hex() to render that value (MD5: little-endian words, "
+                 "SHA: big-endian words); this treats every state value as the digest of some message - for these hash functions every value is believed to be one, but no "
+                 "message is exhibited. For the value classes a search reaches (MD5 digests of printable bytes ...) subcheck digest exhibits real messages; an all-printable "
+                 "SHA-1 digest would need about 2e8 candidates and a SHA-256 one 2e13, out of reach of a quick (or thorough) run",
                  "a crc32/fnv seed is a running value of the same function (zlib's crc32(crc, buf, len) semantics)"],
     min_evaluations_quick=50000,
     engine="rapidcheck + exhaustive enumerators",
